@@ -645,8 +645,9 @@ def appShutdown (e : EP) (h : Nat) : EP × Res :=
   match e.handleObj h with
   | none => (e, .badHandle)
   | some (i, o) =>
-    if o.finishSent then (e, .unit)
-    else ((e.modObj i (fun o => { o with finishSent := true })).enqFrame (.finish o.fid), .unit)
+    -- (a shutdown call that completes leaves no write call pending: `parked` is cleared)
+    if o.finishSent then (e.modObj i (fun o => { o with parked := false }), .unit)
+    else ((e.modObj i (fun o => { o with finishSent := true, parked := false })).enqFrame (.finish o.fid), .unit)
 
 /-- Dropping a `MuxStream` (stream.rs:60-72): the receiver goes away, the task is notified. -/
 def appDropStream (e : EP) (h : Nat) : EP × Res :=
